@@ -372,6 +372,12 @@ func (t *Template) new(name string) *Template {
 		nil,
 		t.nameSpace,
 	}
+	if t.nameSpace.escaped {
+		// The set has been executed: nothing can be parsed into the new template any more
+		// (Parse fails), so it neither joins the set nor resets a template of that name,
+		// which may have been executed and is relied on by the templates that call it.
+		return tmpl
+	}
 	if existing, ok := tmpl.set[name]; ok {
 		emptyTmpl := New(existing.Name())
 		*existing = *emptyTmpl
